@@ -196,6 +196,10 @@ func (r rng) genVar(class int, special float64, allowZeroPrec bool) VarSpec {
 	n := r.genLen(class)
 	v.Words = r.genWords(n, r.pick(0, 0, 0, 1, 2, 3, 4, 4, 5))
 	v.Exp = r.genExp()
+	if allNines(v.Words) && r.chance(0.35) {
+		// all nines at the top of the exponent range: rounding up must give an infinity
+		v.Exp = math.MaxInt32
+	}
 	v.Prec = r.genPrec(n, false)
 	if r.chance(0.5) {
 		v.Prec = uint32(n * wordDigits) // keep all digits
@@ -393,3 +397,12 @@ func (s rngSrc) Int63() int64 { return int64(s.r.Uint64() >> 1) }
 func (s rngSrc) Seed(int64)   {}
 
 func randFor(r rng) *mrand.Rand { return mrand.New(rngSrc{r}) }
+
+func allNines(w []uint64) bool {
+	for _, x := range w {
+		if x != wordBase-1 {
+			return false
+		}
+	}
+	return len(w) > 0
+}
